@@ -7,7 +7,7 @@
    its crossing number (the code's tie rule included).  Hence every point that can be reached
    from the kernel point by an axis-parallel path avoiding the boundary is reported inside. *)
 From Coq Require Import ZArith List Bool Lia Arith Permutation.
-From Verif Require Import Geo.Model Geo.Conserve Geo.Edges Geo.Orient Geo.Rings Geo.Recover Geo.Contain.
+From Verif Require Import Geo.Model Geo.Conserve Geo.Edges Geo.Orient Geo.Rings Geo.Holes Geo.Recover Geo.Contain.
 Import ListNotations.
 Open Scope Z_scope.
 
@@ -143,4 +143,82 @@ Proof.
          | |- context [?u >? 0] => let C := fresh "C" in destruct (u >? 0) eqn:C
          | |- context [?u <? 0] => let C := fresh "C" in destruct (u <? 0) eqn:C
          end; cbn [xorb andb]; try reflexivity; exfalso; nia.
+Qed.
+
+(* ---------------------------------------------------------------- legs and paths *)
+Definition leg_clear (r : line) (p q : point) : Prop :=
+  (snd p = snd q /\ forall e, In e (line_edges r) -> clear_h (fst e) (snd e) p q) \/
+  (fst p = fst q /\ forall e, In e (line_edges r) -> clear_v (fst e) (snd e) p q).
+
+Lemma clear_edge_sym : forall a b p q, clear_edge a b p q -> clear_edge a b q p.
+Proof. intros a b p q [[H1 H2]|[H1 H2]]; [left|right]; split; assumption. Qed.
+
+Lemma clear_v_sym : forall a b p q, fst p = fst q -> clear_v a b p q -> clear_v a b q p.
+Proof.
+  intros a b p q E [H|[H|H]]; [left|right; left|right; right; apply clear_edge_sym; exact H];
+    rewrite <- E; exact H.
+Qed.
+
+Lemma leg_parity_v : forall r p q, line_closed r -> fst p = fst q -> snd p < snd q ->
+  (forall e, In e (line_edges r) -> clear_v (fst e) (snd e) p q) ->
+  point_in_ring r p = point_in_ring r q.
+Proof.
+  intros r p q Hc Hx Hlt Hcl. rewrite !(point_in_closed r _ Hc). unfold ncross.
+  assert (HT := parity_transfer (ecrosses p) (ecrosses q) (swept p q) r
+                 (fun e He => move_v (fst e) (snd e) p q Hx Hlt (Hcl e He))).
+  unfold line_closed in Hc. rewrite Hc, xorb_nilpotent in HT.
+  destruct (Nat.odd (length (filter (ecrosses p) (line_edges r)))),
+           (Nat.odd (length (filter (ecrosses q) (line_edges r)))); simpl in HT; congruence.
+Qed.
+
+Theorem leg_parity : forall r p q, line_closed r -> leg_clear r p q ->
+  point_in_ring r p = point_in_ring r q.
+Proof.
+  intros r p q Hc [[Hy Hcl]|[Hx Hcl]].
+  - rewrite !(point_in_closed r _ Hc). unfold ncross. f_equal. f_equal.
+    apply filter_ext_in. intros [a b] He. apply move_h; [exact Hy|exact (Hcl (a, b) He)].
+  - destruct (Z.lt_trichotomy (snd p) (snd q)) as [H|[H|H]].
+    + apply leg_parity_v; assumption.
+    + destruct p, q. simpl in *. subst. reflexivity.
+    + symmetry. apply leg_parity_v; [exact Hc|symmetry; exact Hx|exact H|].
+      intros e He. apply clear_v_sym; [exact Hx|exact (Hcl e He)].
+Qed.
+
+Fixpoint path_clear (r : line) (w : point) (path : list point) : Prop :=
+  match path with
+  | [] => True
+  | w' :: rest => leg_clear r w w' /\ path_clear r w' rest
+  end.
+
+(* p can be reached from c by axis-parallel legs none of which meets the ring *)
+Definition reach (r : line) (c p : point) : Prop :=
+  exists path, path_clear r c path /\ last path c = p.
+
+Lemma path_parity : forall r path w, line_closed r -> path_clear r w path ->
+  point_in_ring r (last path w) = point_in_ring r w.
+Proof.
+  intros r path. induction path as [|w' rest IH]; intros w Hc Hp; [reflexivity|].
+  destruct Hp as [Hl Hp]. rewrite (leg_parity r w w' Hc Hl).
+  rewrite <- (IH w' Hc Hp). rewrite (last_cons_default rest w' w). reflexivity.
+Qed.
+
+(* every point reachable from the kernel point without meeting the ring is reported inside *)
+Theorem reach_inside : forall r c p, line_closed r -> kernel r c -> reach r c p ->
+  point_in_ring r p = true.
+Proof.
+  intros r c p Hc Hk (path & Hp & <-). rewrite (path_parity r path c Hc Hp).
+  apply kernel_inside; assumption.
+Qed.
+
+(* a hole lies strictly inside the star-shaped outer ring o: o has a kernel point from which every
+   vertex of the hole can be reached without meeting o *)
+Definition strictly_inside_star (o h : line) : Prop :=
+  h <> [] /\ exists c, kernel (close_ring o) c /\ forall p, In p h -> reach (close_ring o) c p.
+
+Theorem inside_star_contains : forall o h, o <> [] -> strictly_inside_star o h ->
+  existsb (point_in_ring (close_ring o)) h = true.
+Proof.
+  intros o h Ho (Hne & c & Hk & Hr). destruct h as [|p h']; [congruence|].
+  simpl. rewrite (reach_inside (close_ring o) c p (close_ring_closed o Ho) Hk (Hr p (or_introl eq_refl))).
+  reflexivity.
 Qed.
